@@ -45,13 +45,16 @@ struct DSet {
 }
 
 /// D0 default; D1 ASCII pairs sharing their first character; D2 one two-byte character each (all
-/// with the UTF-8 lead byte 0xC2, like U+00A0).
-const DSETS: [DSet; 3] = [
+/// with the UTF-8 lead byte 0xC2, like U+00A0); D3 start delimiters with three DIFFERENT first
+/// bytes, so that a text ending in one of them can directly precede another kind of tag (`<{{ x }}`;
+/// seeded change C08-2: a start-marker search that skipped two bytes after a rejected candidate).
+const DSETS: [DSet; 4] = [
     DSet { name: "D0", bs: "{%", be: "%}", vs: "{{", ve: "}}", cs: "{#", ce: "#}" },
     DSet { name: "D1", bs: "<%", be: "%>", vs: "<<", ve: ">>", cs: "<#", ce: "#>" },
     DSet { name: "D2", bs: "¶", be: "§", vs: "«", ve: "»", cs: "¿", ce: "¡" },
+    DSet { name: "D3", bs: "<%", be: "%>", vs: "{{", ve: "}}", cs: "(#", ce: "#)" },
 ];
-const ALL_D: u8 = 0b111;
+const ALL_D: u8 = 0b1111;
 const ONLY_D0: u8 = 0b001;
 
 impl DSet {
@@ -86,12 +89,13 @@ impl DSet {
 
 /// Texts. The first five are the sub-alphabet of the sequence families. 10..15 are partial D0
 /// delimiters, 15..18 partial D1 delimiters, 18.. characters sharing UTF-8 bytes with D2.
-const TEXTS: [&str; 20] = [
+const TEXTS: [&str; 22] = [
     "", "a", " ", " a ", " \n\t", // sequence sub-alphabet
     "\n", "é", " é ", "\u{a0}x", "x\u{a0}", // other whitespace, multi-byte, U+00A0 at either end
     "{", "%}", "}}", "#}", "{ {", // lone / partial default delimiters
     "<", "< <", "%>>>#>", // lone start character and the three end delimiters of D1
     "»§¡", "ëöÿ", // the end delimiters of D2; characters sharing the trailing byte with D2 starts
+    "(", "a<", // first bytes of D3's start delimiters directly before a tag of another kind
 ];
 const SUB5: [u8; 5] = [0, 1, 2, 3, 4];
 const SUB2: [u8; 2] = [0, 3];
@@ -726,7 +730,7 @@ impl Judge {
             acc.count("cases-discriminating-F-ws", 1);
         }
 
-        let mut outs: [Option<Out>; 3] = [None, None, None];
+        let mut outs: [Option<Out>; 4] = [None, None, None, None];
         for (di, d) in DSETS.iter().enumerate() {
             if dmask & (1 << di) == 0 {
                 continue;
@@ -768,8 +772,8 @@ impl Judge {
             }
         }
         // ---- re-spelling invariance (only where no delimiter of either set occurs in a literal)
-        for a in 0..3 {
-            for b in a + 1..3 {
+        for a in 0..DSETS.len() {
+            for b in a + 1..DSETS.len() {
                 if let (Some(oa), Some(ob)) = (&outs[a], &outs[b]) {
                     if lit_delims & (1 << a) != 0 || lit_delims & (1 << b) != 0 {
                         acc.count("respell-not-compared:literal-contains-a-delimiter", 1);
@@ -1002,7 +1006,7 @@ fn main() {
         Family::new(
             "identity",
             n2 + 1,
-            &format!("every string of length 0..={maxlen} over the 28-character alphabet, under D0, D1, D2"),
+            &format!("every string of length 0..={maxlen} over the 28-character alphabet, under D0, D1, D2, D3"),
         ),
         |item, acc: &mut Acc| {
             let one = |s: &str, acc: &mut Acc| {
